@@ -157,7 +157,7 @@ func bandFams(maxn int) []bfam {
 		{"id", func(n, kd int) M { return eye(n) }, true, nil, true},
 		{"zero", func(n, kd int) M { return newM(n, n) }, false, func(n int) bool { return n > 0 }, false},
 	}
-	for _, k := range uniq(0, 0, maxn/2, maxn-1) {
+	for k := 0; k < maxn; k++ {
 		k := k
 		fs = append(fs, bfam{fmt.Sprintf("negdiag%d", k), func(n, kd int) M {
 			a := genBandSPD(n, kd)
@@ -166,15 +166,29 @@ func bandFams(maxn int) []bfam {
 			}
 			return a
 		}, false, func(n int) bool { return k < n }, false})
+		fs = append(fs, bfam{fmt.Sprintf("ldlneg%d", k), func(n, kd int) M { return genLDLNeg(k, kd)(n) },
+			false, func(n int) bool { return k < n }, false})
+		if k >= 1 {
+			fs = append(fs, bfam{fmt.Sprintf("zeropiv%d", k), func(n, kd int) M {
+				if kd == 0 {
+					a := eye(n) // no off-diagonal in the band: put the zero pivot on the diagonal
+					if k < n {
+						a.a[k*n+k] = 0
+					}
+					return a
+				}
+				return genZeroPiv(k)(n)
+			}, false, func(n int) bool { return k < n }, false})
+		}
 	}
 	return fs
 }
 
 func kdMenu(n int, thorough bool) []int {
 	if thorough {
-		return uniq(0, 0, 1, 2, 3, 4, 5, 6, n-1, n+1)
+		return uniq(0, 0, 1, 2, 3, 4, 5, 6, 7, 8, n-1, n+1)
 	}
-	return uniq(0, 0, 1, 2, 3, 4, n-1, n+1)
+	return uniq(0, 0, 1, 2, 3, 4, 5, 6, n-1, n+1)
 }
 
 type pbRun struct {
@@ -224,13 +238,13 @@ func bandCholOracle(ck *checker, what string, uplo blas.Uplo, a M, r pbRun, f bf
 }
 
 func genBandChol(g *vlib.G) {
-	N := vlib.Pick(g, 10, 12)
-	nbs := vlib.Pick(g, []int{2, 3, 4}, []int{1, 2, 3, 4})
+	N := vlib.Pick(g, 12, 14)
+	nbs := vlib.Pick(g, []int{1, 2, 3, 4}, []int{1, 2, 3, 4, 5})
 	fams := bandFams(N)
 	for n := 0; n <= N; n++ {
 		for _, kd := range kdMenu(n, g.Thorough()) {
 			for _, f := range fams {
-				if f.notPD != nil && len(f.name) > 7 && f.name[:7] == "negdiag" && !f.notPD(n) {
+				if k, ok := posFam(f.name); ok && k >= n {
 					continue
 				}
 				for _, uplo := range uplos {
